@@ -226,9 +226,11 @@ Proof.
   split; [exact Hin|]. split; [exact Hdom|].
   split; [apply decisions_okb_ok; vm_compute; reflexivity|].
   split; [exact Hlz|].
-  split. { intros i part. unfold C01.ex_grp. destruct i as [|[|i]]; try (vm_compute; reflexivity);
-           pose proof (N.mod_lt (N.of_nat part) 2 ltac:(discriminate)) as H; unfold two32;
-           (apply N.lt_trans with (16 + 2); [apply N.add_lt_mono_l; exact H | vm_compute; reflexivity]). }
+  split. { intros i part.
+           assert (T : 16 + N.of_nat part mod 2 < two32).
+           { pose proof (N.mod_lt (N.of_nat part) 2 ltac:(discriminate)) as H.
+             apply N.lt_trans with (16 + 2); [apply N.add_lt_mono_l; exact H | reflexivity]. }
+           unfold C01.ex_grp. destruct i as [|[|i]]; [exact T | reflexivity | exact T]. }
   split; [intro l; apply Permutation_rev|].
   split; [exact C01.ops_carry_nonvacuous|].
   split; [apply catalogue_in_domb_ok; exact H1|].
